@@ -4,7 +4,11 @@ package tiered
 
 // verifHook, when set by a verification harness, is called at the scheduling points of the flush
 // worker ("idle": top of the worker loop, "created": after disk.Create in flushData, "unban": before
-// the deferred mem.UnbanEviction of flush). It is compiled in only with the build tag `verif`.
+// the deferred mem.UnbanEviction of flush, "mdsnap" / "mdcheck": before the dirty-metadata snapshot and
+// before the test that ends the metadata loop, "md:<suffix>" / "mdwrite:<suffix>": before the read from
+// memory and before the write to disk of one metadata flush, "fail1" / "fail2": before the two halves
+// of handleFlushFailure) and between the store calls of the client operations of tiered.store ("c-…",
+// on the caller's goroutine). It is compiled in only with the build tag `verif`.
 var verifHook func(point, key string)
 
 func verifPoint(point, key string) {
